@@ -22,7 +22,151 @@ type edgeReq struct {
 	// Instr, when set, is an alternative way to meet the requirement: the path executes an instruction satisfying it
 	// (e.g. a call to a helper whose postcondition is the required fact).
 	Instr func(in ssa.Instruction) bool
+	// ViaHelper: the branch condition may be the boolean result of a helper in the same package (pipelineFull(peer)):
+	// the edge on which the call returned `pol` meets the requirement when, inside the helper, every path to a return
+	// that can yield `pol` meets it (the same Match applied to the helper's own branches).
+	ViaHelper bool
+	// Subj/MatchS: a Match that refers to particular values of the function (its parameters, say). Inside a helper the
+	// subjects are renamed to the helper's parameters that receive them at the call (a subject that is not passed
+	// becomes nil and matches nothing).
+	Subj   []ssa.Value
+	MatchS func(subj []ssa.Value, cond ssa.Value, pol bool) bool
 }
+
+func (rq edgeReq) match(cond ssa.Value, pol bool) bool {
+	if rq.MatchS != nil {
+		return rq.MatchS(rq.Subj, cond, pol)
+	}
+	return rq.Match != nil && rq.Match(cond, pol)
+}
+
+var helperEdgeMemo = map[string]bool{}
+
+// helperEdgeMeets: see edgeReq.ViaHelper. The condition is the helper's boolean result itself, or the test of its
+// error result against nil (then `pol` is folded into "the error is nil" / "is not nil").
+func helperEdgeMeets(rq edgeReq, cond ssa.Value, pol bool, depth int) bool {
+	if depth > 2 {
+		return false
+	}
+	var c *ssa.Call
+	resIdx := 0
+	outcome := 0 // 1: boolean result == pol; 2: error result nil; 3: error result non-nil
+	switch x := cond.(type) {
+	case *ssa.Call:
+		c, outcome = x, 1
+	case *ssa.BinOp:
+		v, isNil, ok := nilFact(Guard{Cond: cond, Pol: pol})
+		if !ok || !isErrorType(v.Type()) {
+			return false
+		}
+		switch y := v.(type) {
+		case *ssa.Call:
+			c = y
+		case *ssa.Extract:
+			c, _ = y.Tuple.(*ssa.Call)
+			resIdx = y.Index
+		case *ssa.UnOp:
+			// named result / local err variable: a load of a local that holds one call's result
+			if al, isAl := y.X.(*ssa.Alloc); isAl && y.Op == token.MUL {
+				var only *ssa.Call
+				n := 0
+				for _, ref := range *al.Referrers() {
+					if st, isSt := ref.(*ssa.Store); isSt && st.Addr == ssa.Value(al) {
+						n++
+						switch z := st.Val.(type) {
+						case *ssa.Call:
+							only = z
+						case *ssa.Extract:
+							only, _ = z.Tuple.(*ssa.Call)
+							resIdx = z.Index
+						}
+					}
+				}
+				if n == 1 {
+					c = only
+				}
+			}
+		}
+		outcome = 3
+		if isNil {
+			outcome = 2
+		}
+	}
+	if c == nil || c.Call.IsInvoke() {
+		return false
+	}
+	h := c.Call.StaticCallee()
+	if h == nil || h.Blocks == nil || c.Parent() == nil || funcPkgPath(h) != funcPkgPath(c.Parent()) {
+		return false
+	}
+	nres := h.Signature.Results().Len()
+	if nres == 0 || (outcome == 1 && nres != 1) {
+		return false
+	}
+	if outcome != 1 {
+		// the tested value must be the helper's error result
+		if resIdx >= nres || !isErrorType(h.Signature.Results().At(resIdx).Type()) {
+			if nres == 1 && isErrorType(h.Signature.Results().At(0).Type()) {
+				resIdx = 0
+			} else {
+				return false
+			}
+		}
+	}
+	key := fmt.Sprintf("%p/%s/%d/%v/%v", h, rq.Name, outcome, pol, rq.Subj)
+	if v, ok := helperEdgeMemo[key]; ok {
+		return v
+	}
+	helperEdgeMemo[key] = false
+	inner := rq
+	inner.ViaHelper = depth < 1
+	if rq.MatchS != nil {
+		inner.Subj = make([]ssa.Value, len(rq.Subj))
+		for i, sv := range rq.Subj {
+			for k, a := range c.Call.Args {
+				if k < len(h.Params) && sv != nil && (a == sv || stripIntConv(a) == sv) {
+					inner.Subj[i] = h.Params[k]
+				}
+			}
+		}
+	}
+	var ne *NilEnv
+	any := false
+	for _, ret := range returnsOf(h) {
+		res := retResults(ret)
+		switch outcome {
+		case 1:
+			if b, isb := constBool(res[0]); isb && b != pol {
+				continue
+			}
+		case 2, 3:
+			if resIdx >= len(res) {
+				return false
+			}
+			if ne == nil {
+				ne = newNilEnv(pathsProg)
+			}
+			st := ne.At(res[resIdx], ret.Block())
+			if isNilConst(res[resIdx]) {
+				st = IsNil
+			}
+			if (outcome == 2 && st == NonNil) || (outcome == 3 && st == IsNil) {
+				continue
+			}
+		}
+		any = true
+		target := ret
+		miss, reached := pathsMissingAt(h.Blocks[0], 0, -1, func(in ssa.Instruction) bool { return in == ssa.Instruction(target) }, nil, []edgeReq{inner}, nil)
+		if reached > 0 && len(miss) > 0 {
+			return false
+		}
+	}
+	helperEdgeMemo[key] = any
+	return any
+}
+
+// pathsProg is the program under analysis (for nilness queries made by the explorer).
+var pathsProg *Prog
 
 // pathsMissing explores forward from `start` (exclusive; if startEdge >= 0 exploration begins on that successor edge
 // of start's block, which must end in an If) to instructions satisfying isTarget, not continuing through instructions
@@ -144,8 +288,10 @@ func pathsMissingAt(startBlock *ssa.BasicBlock, startIdx int, startEdge int, isT
 		}
 		m := mask
 		for k, rq := range reqs {
-			if rq.Match != nil {
-				if rq.Match(g.Cond, pol) {
+			if rq.Match != nil || rq.MatchS != nil {
+				if rq.match(g.Cond, pol) {
+					m |= 1 << k
+				} else if rq.ViaHelper && m&(1<<k) == 0 && helperEdgeMeets(rq, g.Cond, pol, 0) {
 					m |= 1 << k
 				}
 				continue
